@@ -57,9 +57,17 @@ def rule_fifo(ctx):
            "inserts: %s; removals: %s; other accesses: %s" % (sorted(set(norm(c.func) for c in ins)), sorted(set(norm(c.func) for c in rem)), other or "none"),
            "append at one end, popleft()/pop(0) at the other, and nothing else touches the queue (no picking of finished futures)", node=qdef, func=f)
     ys = [n for n in walk_no_nested(f.node) if isinstance(n, ast.Yield)]
+    yflow = Flow(f)
+
+    def head_of(e, at):
+        """the removal call an expression denotes (directly, or through a temporary bound to it)"""
+        if isinstance(e, ast.Name):
+            r_ = yflow.single_def_value(e.id, at)
+            return r_[0] if r_ is not None else e
+        return e
     bad = [norm(y.value) if y.value is not None else None for y in ys
            if not (isinstance(y.value, ast.Call) and isinstance(y.value.func, ast.Attribute) and y.value.func.attr == "result"
-                   and not y.value.args and y.value.func.value in rem)]
+                   and not y.value.args and any(head_of(y.value.func.value, y) is r_ for r_ in rem))]
     ctx.ob("FileSet.imap.yield", bool(ys) and not bad, "%d yields; not of the form <removed head>.result(): %s" % (len(ys), bad or "none"),
            "every yield delivers the result of the future just removed from the head", node=ys[0] if ys else f.node, func=f)
     loops = [st for st in walk_no_nested(f.node) if isinstance(st, ast.For)]
@@ -252,27 +260,98 @@ def rule_errwrap(ctx):
 def rule_collect(ctx):
     ctx.rule("C10.collect", "T1", "collect drops exactly the None contents and keeps info/content aligned")
     f = ctx.func(FILESET, "FileSet.collect")
-    comps = [n for n in walk_no_nested(f.node) if isinstance(n, ast.ListComp) and n.generators and n.generators[0].ifs]
-    ok = False
-    fact = None
-    if comps:
-        c = comps[0]
-        g = c.generators[0]
-        fact = norm(c)
-        if isinstance(g.target, ast.Tuple) and len(g.target.elts) == 2:
-            info, content = [norm(e) for e in g.target.elts]
-            ok = [norm(i) for i in g.ifs] == ["%s is not None" % content] and norm(c.elt).replace(" ", "") in ("[%s,%s]" % (info, content), "(%s,%s)" % (info, content)) \
-                and norm(g.iter) == "results"
+    from ..flow import iteration_constructs, const_str
+    flow = Flow(f)
+    mp = [c for c in calls_in(f.node, "map") if norm(c.func) == "self.map"]
+    if len(mp) != 1:
+        raise AnalysisError("collect: the call of self.map was not found")
+    rs = enclosing_stmt(mp[0])
+    rname = rs.targets[0].id if isinstance(rs, ast.Assign) and isinstance(rs.targets[0], ast.Name) else None
+    its = [ic for ic in iteration_constructs(f.node) if (rname is not None and norm(ic["iter"]) == rname) or ic["iter"] is mp[0]]
+    if len(its) != 1 or len(its[0]["elts"]) != 1:
+        raise AnalysisError("collect: the filter over the results of map() was not found (%d candidates)" % len(its))
+    ic = its[0]
+    if not (isinstance(ic["target"], ast.Tuple) and len(ic["target"].elts) == 2):
+        raise AnalysisError("collect: results are not unpacked into (info, content)")
+    info, content = [norm(e) for e in ic["target"].elts]
+    ifs = [str(norm(i)) for i in ic["ifs"]]
+    elt = ic["elts"][0]
+    ok = ifs in (["%s is not None" % content], ["not %s is None" % content], ["not (%s is None)" % content]) \
+        and isinstance(elt, (ast.List, ast.Tuple)) and [norm(e) for e in elt.elts] == [info, content]
+    fact = "for %s in %s if %s -> %s" % (norm(ic["target"]), norm(ic["iter"]), ifs, norm(elt))
     ctx.ob("FileSet.collect.filter", ok, fact, "[[info, content] for info, content in results if content is not None] - falsy but valid contents ([] / 0 / empty dataset) are kept",
-           node=comps[0] if comps else f.node, func=f)
-    ma = [st for st in walk_no_nested(f.node) if isinstance(st, ast.Assign) and norm(st.targets[0]) == "map_args" and isinstance(st.value, ast.Dict)]
-    okm = False
-    if not ma:
-        raise AnalysisError("collect: the keyword table handed to map() (map_args = {...}) was not found")
-    if ma:
-        d = {norm(k): norm(v) for k, v in zip(ma[0].value.keys, ma[0].value.values) if k is not None}
-        okm = d.get("'on_content'") == "True" and d.get("'return_info'") == "True" and d.get("'files'") == "files" and d.get("'start'") == "start" and d.get("'end'") == "end"
-    ctx.ob("FileSet.collect.map_args", okm, "%s" % (norm(ma[0].value)[:150] if ma else None), "on_content and return_info forced on; files/start/end forwarded", node=ma[0] if ma else f.node, func=f)
+           node=ic["node"], func=f)
+
+    tnames = set()
+
+    def table(e, at, depth=0):
+        """ordered entries of a keyword table: (key, value) or ('**', expr) for a spread of an unknown mapping"""
+        if depth > 4:
+            return None
+        if isinstance(e, ast.Name):
+            r_ = flow.single_def_value(e.id, at)
+            if r_ is None:
+                return [("**", e)]
+            tnames.add(e.id)
+            return table(r_[0], r_[1], depth + 1)
+        if isinstance(e, ast.Dict):
+            out = []
+            for k_, v_ in zip(e.keys, e.values):
+                if k_ is None:
+                    sub = table(v_, at, depth + 1)
+                    if sub is None:
+                        return None
+                    out += sub
+                else:
+                    ks = const_str(k_)
+                    if ks is None:
+                        return None
+                    out.append((ks, v_))
+            return out
+        if isinstance(e, ast.Call) and dotted(e.func) == "dict":
+            out = []
+            for a_ in e.args:
+                sub = table(a_, at, depth + 1)
+                if sub is None:
+                    return None
+                out += sub
+            for k_ in e.keywords:
+                if k_.arg is None:
+                    sub = table(k_.value, at, depth + 1)
+                    if sub is None:
+                        return None
+                    out += sub
+                else:
+                    out.append((k_.arg, k_.value))
+            return out
+        return None
+    spread = [k_.value for k_ in mp[0].keywords if k_.arg is None]
+    if len(spread) != 1 or mp[0].args or len(mp[0].keywords) != 1:
+        raise AnalysisError("collect: self.map is not called with one keyword table (**map_args)")
+    ent = table(spread[0], mp[0])
+    if ent is None:
+        raise AnalysisError("collect: the keyword table handed to map() could not be read: %s" % norm(spread[0])[:80])
+    last_spread = max([i_ for i_, (k_, _) in enumerate(ent) if k_ == "**"] or [-1])
+    d = {}
+    for i_, (k_, v_) in enumerate(ent):
+        if k_ != "**":
+            d[k_] = (i_, str(norm(v_)))
+    want_tab = {"on_content": "True", "return_info": "True", "files": f.params[3], "start": f.params[1], "end": f.params[2]}
+    # later changes of the table: a store to one of the forced keys is an entry of its own; wholesale updates are not modelled
+    for st_ in flow.stmts:
+        for n_ in walk_no_nested(st_) if not isinstance(st_, (ast.If, ast.For, ast.While, ast.With, ast.Try)) else []:
+            if isinstance(n_, ast.Subscript) and isinstance(n_.ctx, (ast.Store, ast.Del)) and isinstance(n_.value, ast.Name) and n_.value.id in tnames:
+                ks = const_str(n_.slice)
+                if ks is None:
+                    raise AnalysisError("collect: store into the keyword table under a computed key: %s" % norm(st_)[:80])
+                if ks in want_tab:
+                    d[ks] = (len(ent) + 1, str(norm(st_.value)) if isinstance(st_, ast.Assign) else "<deleted>")
+            if isinstance(n_, ast.Call) and isinstance(n_.func, ast.Attribute) and isinstance(n_.func.value, ast.Name) and n_.func.value.id in tnames \
+                    and n_.func.attr in ("update", "pop", "popitem", "clear"):
+                raise AnalysisError("collect: the keyword table is changed by %s" % norm(n_)[:80])
+    okm = all(k_ in d and d[k_][0] > last_spread and d[k_][1] == v_ for k_, v_ in want_tab.items())
+    ctx.ob("FileSet.collect.map_args", okm, "%s" % [(k_, str(norm(v_))[:30]) for k_, v_ in ent], "on_content and return_info forced on (after the user's keywords); files/start/end forwarded",
+           node=mp[0], func=f)
     g_ = ctx.func(FILESET, "FileSet.icollect")
     ys = [n for n in walk_no_nested(g_.node) if isinstance(n, ast.YieldFrom)]
     oky = len(ys) == 1 and norm(ys[0].value) == "self.imap(**map_args)"
